@@ -21,3 +21,25 @@ impl MultiAsset {
     #[verifier::external_body] pub fn new() -> (r: MultiAsset) ensures r.ins().len() == 0 { unimplemented!() }
     #[verifier::external_body] pub fn insert(&mut self, policy_id: &PolicyID, assets: &Assets) -> (r: Option<Assets>) ensures final(self).ins() == old(self).ins().push((*policy_id, *assets)) { unimplemented!() }
 }
+
+// ---- what the split computes (functional part): the SEQUENCE OF INSERTS it performs
+/// magnitude of a quantity on its side
+pub open spec fn mag(i: Int, pos: bool) -> u64 { if pos { i.0 as u64 } else { (-i.0) as u64 } }
+/// the (asset name, magnitude) inserts for one policy: every quantity whose sign is the side asked for, in key order
+pub open spec fn side_assets(ents: Seq<(AssetName, Int)>, pos: bool, n: int) -> Seq<(AssetName, BigNum)> decreases n {
+    if n <= 0 { Seq::empty() } else {
+        let p = side_assets(ents, pos, n - 1);
+        if (ents[n - 1].1.0 >= 0) == pos { p.push((ents[n - 1].0, BigNum(mag(ents[n - 1].1, pos)))) } else { p }
+    }
+}
+/// the (policy, inserts) pairs: every policy entry that has at least one quantity on the side, in the mint's order
+pub open spec fn side_pols(m: Seq<(PolicyID, MintAssets)>, pos: bool, n: int) -> Seq<(PolicyID, Seq<(AssetName, BigNum)>)> decreases n {
+    if n <= 0 { Seq::empty() } else {
+        let p = side_pols(m, pos, n - 1);
+        let a = side_assets(m[n - 1].1.0.entries@, pos, m[n - 1].1.0.entries@.len() as int);
+        if a.len() > 0 { p.push((m[n - 1].0, a)) } else { p }
+    }
+}
+pub open spec fn ma_is(r: MultiAsset, sp: Seq<(PolicyID, Seq<(AssetName, BigNum)>)>) -> bool {
+    r.ins().len() == sp.len() && forall|k: int| 0 <= k < sp.len() ==> (#[trigger] r.ins()[k]).0 == sp[k].0 && r.ins()[k].1.ins() == sp[k].1
+}
